@@ -48,7 +48,8 @@ class BitStore:
 
     def __init__(self, initializer: Union[int, bitarray.bitarray, str, None] = None,
                  immutable: bool = False) -> None:
-        self._bitarray = bitarray.bitarray(initializer)
+        # Always store big-endian: a little-endian bitarray initializer keeps its bit sequence, not its byte layout.
+        self._bitarray = bitarray.bitarray(initializer, endian='big')
         self.immutable = immutable
         self.modified_length = None
 
